@@ -77,3 +77,21 @@ for _n, _k in (("CRC16.calculate", 3), ("CRC32.calculate", 3), ("CRC9.calculate_
                ("HSTRP.from_bytes.over_approximation", 6), ("MBXML.uintvar", 2)):
     if _n in REGISTRY:
         mutable(REGISTRY[_n], pick=_k)
+
+
+def _by_doc(name, docs, per=1):
+    """shapes of an MBXML contract, `per` of each of the given document kinds (single-document shapes)"""
+    out = []
+    for d in docs:
+        got = [s for s in REGISTRY[name].shapes("quick") if (s.get("doc") == d or (len(s.get("docs", [])) == 1 and s["docs"][0]["doc"] == d))]
+        out += got[:per]
+    return out
+
+
+# documents of DIFFERENT directions one after the other (request / report / answer): what a token table edited while one
+# document is handled would change for the next
+_DOCS = ("LRRP_ImmediateLocationRequest", "LRRP_ImmediateLocationReport", "LRRP_TriggeredLocationAnswer", "LRRP_UnsolicitedLocationReport", "LRRP_TriggeredLocationRequest_NCDT", "LRRP_ImmediateLocationReport_NCDT")
+for _n in ("MBXMLDocument.get_token", "MBXML.from_bytes"):
+    if _n in REGISTRY:
+        _ss = _by_doc(_n, _DOCS, per=2)
+        pair(REGISTRY[_n], name=_n + ".second_call_other_direction", shapes=lambda tier, _ss=_ss: [(a, b) for a in _ss for b in _ss if a is not b][:80])
